@@ -45,8 +45,11 @@ class WFQ(Scheduler):
         """
         weight_sum = 0.0
         now = self.env.now
-        for i in self.active_set:
-            weight_sum += self.weights[i]
+        for i in self.weights:
+            # table order: the iteration order of a set of string ids depends on
+            # the string-hash seed, and float addition is not associative
+            if i in self.active_set:
+                weight_sum += self.weights[i]
         self.vtime += (now - self.last_time) / weight_sum
 
     def reset_vtime(self):
